@@ -110,7 +110,20 @@ class Func:
 
 
 def own_nodes(fnode, include_lambdas=True):
-    """All AST nodes of a function body, not descending into nested def/class."""
+    """All AST nodes of a function body, not descending into nested def/class (memoised on the node: rules never
+    mutate the analysed tree)."""
+    key = "_sa_own1" if include_lambdas else "_sa_own0"
+    cached = getattr(fnode, key, None)
+    if cached is None:
+        cached = tuple(_own_nodes(fnode, include_lambdas))
+        try:
+            setattr(fnode, key, cached)
+        except AttributeError:
+            pass
+    return cached
+
+
+def _own_nodes(fnode, include_lambdas=True):
     stack = list(reversed(fnode.body))
     while stack:
         n = stack.pop()
@@ -253,6 +266,11 @@ def canonicalise_calls(trees):
                 a = st.args
                 if a.vararg is None:
                     sigs.setdefault(st.name, [x.arg for x in a.posonlyargs + a.args])
+            elif isinstance(st, ast.ClassDef):
+                # constructor calls: the parameters of __init__ after self
+                for b in st.body:
+                    if isinstance(b, ast.FunctionDef) and b.name == "__init__" and b.args.vararg is None:
+                        sigs.setdefault(st.name, [x.arg for x in b.args.posonlyargs + b.args.args][1:])
     for m, t in trees.items():
         _CallCanon(sigs).visit(t)
         ast.fix_missing_locations(t)
@@ -288,6 +306,8 @@ class Repo:
             trees[m] = normalise(tree)
             self.src[m] = text.split("\n")
         canonicalise_calls(trees)
+        from . import canon
+        self.equivalent = canon.restore_equivalent(trees, h.hexdigest())
         self.renamed = 0
         for m in MODULES:
             self.renamed += alpha.restore_names(trees[m], m)
